@@ -35,6 +35,7 @@ def run(ctx):
     r5_sorted_rebuild(ctx)
     r6_process_dependent(ctx)
     r7_hash_order(ctx)
+    r8_shared_objects(ctx)
 
 
 # ------------------------------------------------------------------------------------------ R1
@@ -593,7 +594,30 @@ def r7_hash_order(ctx):
     ctx.floor("C01.R7", "set-typed iteration sites", n, 1)
 
 
+def r8_shared_objects(ctx):
+    """An in-process run shares one learner / environment object between tasks while worker processes get pickled copies,
+    and a worker line handles whole chunks: anything that lets state flow between tasks through a shared object, or that
+    counts something other than chunks, makes the result depend on the execution configuration."""
+    from . import c03, c04, c08
+    ctx.rule("C01.R8", "state cannot flow between tasks through shared objects: learners occurring in several triples are deep-copied (C03.R1/R2), "
+                       "no environment filter keeps cross-read state (C04.R2: ProcessTasks peeks and abandons reads), the per-child limit counts "
+                       "input chunks before the filter (C08.R5)")
+    sub = type(ctx)(ctx.model, ctx.prop, ctx.tier, silent=True)
+    c03.r1_copy_reaches_evaluate(sub)
+    c03.r2_copy_flag(sub)
+    c04.r2_cross_read_state(sub, c04.family(sub))
+    c08.ROLES = c08.Roles(sub.fn(c08.PMP, "Multiprocessor.filter"))
+    c08.r5_limit(sub, sub.fn(c08.PMP, "Multiprocessor.filter"))
+    for o in sub.obs:
+        o.rule = "C01.R8"
+        ctx.obs.append(o)
+    ctx.files |= sub.files
+    ctx.functions |= sub.functions
+    ctx.floor("C01.R8", "shared-object obligations", len(sub.obs), 15)
+
+
 CONTROLS = [
+    ("copy flag by (env,lrn) pairs", PROC, M.replace_expr("MakeTasks.read", "Counter([l for _, l, _ in self._triples])", "Counter([l for _, l in set(((e, l) for e, l, _ in self._triples))])"), "C01.R8"),
     ("delete seed before run", EXP, M.insert_before("Experiment.run", M.text_has("CobaContext.logger.log('Experiment Started')"),
                                                      "del CobaContext.store['experiment_seed']"), "C01.R1"),
     ("worker store without context store", CMP, M.replace_expr("CobaMultiprocessor.filter",
